@@ -322,11 +322,44 @@ func (a *Analysis) atomicsAccounted(pk *packages.Package) string {
 
 // ---------------------------------------------------------------- T3
 
+// guardElemName: "fooOnce", or "onces[3]" for an element of an array of sync.Once.
+func guardElemName(g *ssa.Global, idx int64) string {
+	if g == nil {
+		return "<no guard>"
+	}
+	if idx >= 0 {
+		return fmt.Sprintf("%s[%d]", g.Name(), idx)
+	}
+	return g.Name()
+}
+
 // onceDoCalls returns every call (*sync.Once).Do in non-test module code with its guard and function operands.
 type doCall struct {
 	Instr ssa.CallInstruction
 	Guard *ssa.Global
+	GIdx  int64 // the guard is element GIdx of the package-level array Guard of sync.Once (-1: Guard is a sync.Once itself)
 	Fn    *ssa.Function
+}
+
+// onceArrayElem: ptr is &G[k] for a package-level array G of sync.Once and a constant k.
+func onceArrayElem(ptr ssa.Value) (*ssa.Global, int64) {
+	ia, ok := ptr.(*ssa.IndexAddr)
+	if !ok {
+		return nil, -1
+	}
+	g, ok := ia.X.(*ssa.Global)
+	if !ok {
+		return nil, -1
+	}
+	at, ok := g.Type().(*types.Pointer).Elem().Underlying().(*types.Array)
+	if !ok || !isOnce(at.Elem()) {
+		return nil, -1
+	}
+	k, isC := intConst(ia.Index)
+	if !isC || k < 0 || k >= at.Len() {
+		return nil, -1
+	}
+	return g, k
 }
 
 func (a *Analysis) onceDoCalls() []doCall {
@@ -337,8 +370,11 @@ func (a *Analysis) onceDoCalls() []doCall {
 			if callee := cc.StaticCallee(); callee == nil || callee.String() != "(*sync.Once).Do" || len(cc.Args) != 2 {
 				continue
 			}
-			d := doCall{Instr: c}
+			d := doCall{Instr: c, GIdx: -1}
 			d.Guard, _ = cc.Args[0].(*ssa.Global)
+			if d.Guard == nil {
+				d.Guard, d.GIdx = onceArrayElem(cc.Args[0])
+			}
 			switch f := cc.Args[1].(type) {
 			case *ssa.MakeClosure:
 				d.Fn, _ = f.Fn.(*ssa.Function)
@@ -360,7 +396,7 @@ func (a *Analysis) ruleT3() {
 	}
 	dos := a.onceDoCalls()
 	maps := 0
-	usedGuard := map[*ssa.Global]string{}
+	usedGuard := map[string]string{}
 	for _, lc := range a.langCtxs() {
 		var mapAV AV
 		var site ssa.Instruction
@@ -472,9 +508,11 @@ func (a *Analysis) ruleT3() {
 		}
 		// the builder is run only as the function of one guard, and that guard runs only this function
 		var guard *ssa.Global
+		gidx := int64(-1)
 		synth := builder.Synthetic != "" && builder.Name() == "init" || strings.HasPrefix(builder.Name(), "init#")
 		if synth {
 			r.OK("T3", "guard/"+M.Name(), pos, "", "%s is built during package initialisation: no guard needed", M.Name())
+			a.initBuilt++
 		} else {
 			var mine []doCall
 			for _, d := range dos {
@@ -489,10 +527,10 @@ func (a *Analysis) ruleT3() {
 			case !refsOK:
 				r.Bad("T3", "guard/"+M.Name(), a.P.Pos(builder.Pos()), "", "%s is also called or referenced outside (*sync.Once).Do", fnKey(builder))
 			default:
-				guard = mine[0].Guard
+				guard, gidx = mine[0].Guard, mine[0].GIdx
 				same := true
 				for _, d := range mine {
-					if d.Guard != guard || d.Guard == nil {
+					if d.Guard != guard || d.GIdx != gidx || d.Guard == nil {
 						same = false
 					}
 				}
@@ -514,14 +552,14 @@ func (a *Analysis) ruleT3() {
 					// every Do on this guard passes this builder
 					okG := true
 					for _, d := range dos {
-						if d.Guard == guard && d.Fn != builder {
-							r.Bad("T3", "guard/"+M.Name(), a.P.InstrPos(d.Instr), "", "guard %s runs %s here and %s elsewhere: whichever comes first wins and the other map is never built", guard.Name(), fnKey(d.Fn), fnKey(builder))
+						if d.Guard == guard && d.GIdx == gidx && d.Fn != builder {
+							r.Bad("T3", "guard/"+M.Name(), a.P.InstrPos(d.Instr), "", "guard %s runs %s here and %s elsewhere: whichever comes first wins and the other map is never built", guardElemName(guard, gidx), fnKey(d.Fn), fnKey(builder))
 							okG = false
 						}
 					}
 					if okG {
-						r.OK("T3", "guard/"+M.Name(), a.P.Pos(guard.Pos()), "", "built by %s, run only under %s, which runs nothing else", fnKey(builder), guard.Name())
-						usedGuard[guard] = M.Name()
+						r.OK("T3", "guard/"+M.Name(), a.P.Pos(guard.Pos()), "", "built by %s, run only under %s, which runs nothing else", fnKey(builder), guardElemName(guard, gidx))
+						usedGuard[guardElemName(guard, gidx)] = M.Name()
 					}
 				}
 			}
@@ -572,7 +610,7 @@ func (a *Analysis) ruleT3() {
 			}
 			dom := false
 			for _, d := range dos {
-				if d.Fn != builder || d.Guard != guard || guard == nil {
+				if d.Fn != builder || d.Guard != guard || d.GIdx != gidx || guard == nil {
 					continue
 				}
 				if d.Instr.Parent() == fn && instrDominates(d.Instr, ld) {
@@ -608,7 +646,9 @@ func (a *Analysis) ruleT3() {
 		}
 	}
 	r.Counts["T3.maps"] = maps
-	r.Counts["T3.guards"] = len(usedGuard)
+	// (a map built during package initialisation needs no guard: it counts as guarded for the
+	// floors, which only make sure that the rule did not pass on nothing)
+	r.Counts["T3.guards"] = len(usedGuard) + a.initBuilt
 }
 
 func guardName(g *ssa.Global) string {
@@ -688,7 +728,11 @@ func (a *Analysis) fillShape(f *ssa.Function, mapOK func(ssa.Value) bool) (ssa.V
 			switch x := in.(type) {
 			case *ssa.MapUpdate:
 				updates = append(updates, x)
-			case *ssa.Go, *ssa.Defer, *ssa.Panic, *ssa.Send, *ssa.Select:
+			case *ssa.Defer:
+				if !a.inertCall(x) {
+					return nil, fmt.Sprintf("%s contains %T", fnKey(f), in)
+				}
+			case *ssa.Go, *ssa.Panic, *ssa.Send, *ssa.Select:
 				return nil, fmt.Sprintf("%s contains %T", fnKey(f), in)
 			}
 		}
@@ -852,7 +896,7 @@ func (a *Analysis) helperShape(h *ssa.Function) string {
 // t3Lazy discharges the T3 obligations of map M when it is built through a lazy helper
 // (rules_lazy.go): the helper has the guarded shape for any pointers, every use of &M is such
 // a call, all with one guard that serves no other map, and the list passed is L.
-func (a *Analysis) t3Lazy(lc LangCtx, M *ssa.Global, insts []lazyInst, usedGuard map[*ssa.Global]string) {
+func (a *Analysis) t3Lazy(lc LangCtx, M *ssa.Global, insts []lazyInst, usedGuard map[string]string) {
 	r := a.R
 	pos := a.P.Pos(M.Pos())
 	lh := insts[0].Helper
@@ -951,7 +995,7 @@ func (a *Analysis) t3Lazy(lc LangCtx, M *ssa.Global, insts []lazyInst, usedGuard
 		}
 		if okG {
 			r.OK("T3", "guard/"+M.Name(), a.P.Pos(guard.Pos()), "", "built by %s under %s, which guards nothing else", fnKey(lh.H), guard.Name())
-			usedGuard[guard] = M.Name()
+			usedGuard[guard.Name()] = M.Name()
 			if a.LazyGuard == nil {
 				a.LazyGuard = map[*ssa.Global]*ssa.Global{}
 			}
@@ -1021,7 +1065,7 @@ func (a *Analysis) builderShape(f *ssa.Function, M *ssa.Global) (*ssa.Global, in
 	switch v := stores[0].Val.(type) {
 	case *ssa.MakeMap:
 		for _, c := range callsIn(f) {
-			if n := calleeName(c); n != "len" {
+			if n := calleeName(c); n != "len" && !a.inertCall(c) {
 				return nil, 0, fmt.Sprintf("builder %s calls %s: outside the recognised construction", fnKey(f), n)
 			}
 		}
@@ -1047,11 +1091,18 @@ func (a *Analysis) builderShape(f *ssa.Function, M *ssa.Global) (*ssa.Global, in
 		}
 		inInit := f.Synthetic != "" && f.Name() == "init"
 		if !inInit {
+			// a user-written init() may build the other maps with the same helper
+			userInit := strings.HasPrefix(f.Name(), "init#") && f.Parent() == nil
 			for _, c := range callsIn(f) {
-				if c != ssa.CallInstruction(v) && calleeName(c) != "len" {
-					return nil, 0, fmt.Sprintf("builder %s also calls %s", fnKey(f), calleeName(c))
+				if c == ssa.CallInstruction(v) || calleeName(c) == "len" || a.inertCall(c) {
+					continue
 				}
+				if userInit && c.Common().StaticCallee() == h {
+					continue
+				}
+				return nil, 0, fmt.Sprintf("builder %s also calls %s", fnKey(f), calleeName(c))
 			}
+			inInit = userInit
 		}
 		if msg := a.helperShape(h); msg != "" {
 			return nil, 0, msg
